@@ -75,6 +75,7 @@ type Summary struct {
 	Skipped          int64            `json:"skipped"`
 	StateChanging    int64            `json:"state_changing"`
 	Unbuildable      int64            `json:"unbuildable_states"`
+	WalkSteps        int64            `json:"walk_steps"`
 	UnbuildableEx    []string         `json:"unbuildable_examples,omitempty"`
 	Divs             []DivSummary     `json:"divs"`
 	Branches         map[string]int64 `json:"branches"`
@@ -111,7 +112,13 @@ type Options struct {
 	MaxStates int64
 	OpTimeout time.Duration
 	OnHang    func([]*Summary)
-	OutFile   string // where a hang dumps the partial summaries before exiting with status 3
+	// Walks: after the exhaustive replay, that many random walks of WalkLen steps over the model's graph are run on one
+	// long-lived instance each (histories much longer than the BFS chains), comparing result and state at every step.
+	Walks   int
+	WalkLen int
+	// AvoidBranches: walks do not take transitions whose branch label contains one of these (known findings would end them)
+	AvoidBranches []string
+	OutFile       string // where a hang dumps the partial summaries before exiting with status 3
 }
 
 type collector struct {
@@ -158,7 +165,9 @@ func Run(r io.Reader, module string, ads []Adapter, opt Options) ([]*Summary, er
 
 	var calls []tla.Value
 	parents := map[string][]parent{}
-	inits := map[string]*tla.Value{} // initial states (states nobody discovered), by key
+	inits := map[string]*tla.Value{}  // initial states (states nobody discovered), by key
+	graph := map[string][]tla.Value{} // state key -> transitions (kept only when random walks are requested)
+	states := map[string]*tla.Value{}
 
 	jobs := make(chan *job, opt.Workers*2)
 	var wg sync.WaitGroup
@@ -312,6 +321,11 @@ func Run(r io.Reader, module string, ads []Adapter, opt Options) ([]*Summary, er
 					if opt.Sample < 1 && parents[key] != nil && rng.Float64() >= opt.Sample {
 						goto next
 					}
+					if opt.Walks > 0 {
+						graph[key] = trs
+						cp := *s
+						states[key] = &cp
+					}
 					jb := &job{state: *s, trs: trs}
 					var root string
 					jb.chains, root = chainsOf(parents, key)
@@ -332,14 +346,23 @@ func Run(r io.Reader, module string, ads []Adapter, opt Options) ([]*Summary, er
 	}
 	close(jobs)
 	wg.Wait()
+	if opt.Walks > 0 && len(inits) > 0 {
+		runWalks(ads, calls, graph, states, inits, cols, cnt, opt, slots[0].what.Store, func(on bool) {
+			if on {
+				slots[0].since.Store(time.Now().UnixNano())
+			} else {
+				slots[0].since.Store(0)
+			}
+		})
+	}
 	close(stopWatch)
 	sum.TlcTail = strings.Join(tail, "\n")
 	return results(), nil
 }
 
 type counters struct {
-	replayed, skipped, changing, unbuildable int64
-	unbuildEx                                []string
+	replayed, skipped, changing, unbuildable, walkSteps int64
+	unbuildEx                                           []string
 }
 
 type hangInfo struct {
@@ -350,6 +373,7 @@ type hangInfo struct {
 func finish(sum *Summary, col *collector, start time.Time, c *counters) {
 	col.mu.Lock()
 	defer col.mu.Unlock()
+	sum.WalkSteps = atomic.LoadInt64(&c.walkSteps)
 	sum.Replayed, sum.Skipped, sum.StateChanging, sum.Unbuildable = atomic.LoadInt64(&c.replayed), atomic.LoadInt64(&c.skipped), atomic.LoadInt64(&c.changing), atomic.LoadInt64(&c.unbuildable)
 	sum.Divs = nil
 	for _, d := range col.divs {
@@ -624,4 +648,99 @@ func ReplayOne(ad Adapter, initRaw, stateRaw string, history []string, callRaw, 
 		divs = append(divs, inst.CheckState(exp, &call, &tr)...)
 	}
 	return obs, divs, nil
+}
+
+// runWalks performs random walks over the model graph on long-lived instances.
+func runWalks(ads []Adapter, calls []tla.Value, graph map[string][]tla.Value, states, inits map[string]*tla.Value,
+	cols []*collector, cnt []*counters, opt Options, setWhat func(any), setBusy func(bool)) {
+	var initKeys []string
+	for k := range inits {
+		initKeys = append(initKeys, k)
+	}
+	sort.Strings(initKeys)
+	var wg sync.WaitGroup
+	sem := make(chan struct{}, opt.Workers)
+	for w := 0; w < opt.Walks; w++ {
+		for ai, ad := range ads {
+			wg.Add(1)
+			sem <- struct{}{}
+			go func(w, ai int, ad Adapter) {
+				defer wg.Done()
+				defer func() { <-sem }()
+				r := newRng(opt.Seed*1000003 + int64(w)*7919 + int64(ai))
+				key := initKeys[int(r.next()%uint64(len(initKeys)))]
+				init := inits[key]
+				inst, err := ad.New(init)
+				if err != nil {
+					return
+				}
+				defer func() { inst.Close() }()
+				var hist []string
+				for step := 0; step < opt.WalkLen; step++ {
+					trs := graph[key]
+					if len(trs) == 0 {
+						break // frontier state: never expanded by the model
+					}
+					// prefer state-changing transitions half of the time so the walk moves
+					var i int
+					for try := 0; try < 8; try++ {
+						i = int(r.next() % uint64(len(trs)))
+						n := trs[i].F("n")
+						if n.IsStr("skip") {
+							continue
+						}
+						if n.K != tla.Str || try >= 3 {
+							break
+						}
+					}
+					tr := &trs[i]
+					n := tr.F("n")
+					if n.IsStr("skip") {
+						continue
+					}
+					if b := tr.Get("b"); b != nil && avoided(b.S, opt.AvoidBranches) {
+						continue
+					}
+					call := &calls[i]
+					if sa, ok := inst.(StateAware); ok {
+						sa.SetState(states[key])
+					}
+					exp := states[key]
+					next := key
+					if n.K != tla.Str {
+						exp, next = n, n.Raw
+					}
+					obs := inst.Apply(call)
+					divs := inst.CheckResult(call, tr, obs)
+					divs = append(divs, inst.CheckState(exp, call, tr)...)
+					atomic.AddInt64(&cnt[ai].replayed, 1)
+					atomic.AddInt64(&cnt[ai].walkSteps, 1)
+					if len(divs) > 0 || inst.Dirty() {
+						ex := Example{Init: init.Raw, State: states[key].Raw, History: append([]string{}, hist...), Call: call.Raw, Expected: trRaw(tr)}
+						for _, d := range divs {
+							e := ex
+							e.Detail = d.Detail
+							cols[ai].add(d, e)
+						}
+						break // this instance is off the model; the walk ends here
+					}
+					hist = append(hist, call.Raw)
+					if _, ok := graph[next]; !ok && n.K != tla.Str {
+						break
+					}
+					key = next
+				}
+			}(w, ai, ad)
+		}
+	}
+	wg.Wait()
+}
+
+func avoided(b string, avoid []string) bool {
+	for _, a := range avoid {
+		if a != "" && strings.Contains(b, a) {
+			return true
+		}
+	}
+	return false
 }
